@@ -12,7 +12,7 @@ def standard_check(chk, spec):
     # 1. translator
     ok_t = chk.srcgen()
     # 2. Coq closure of the property (theorems + the executable correspondence model)
-    ok_c = chk.coq_build(spec['coq_targets'], jobs=spec.get('jobs', 8), timeout=spec.get('coq_timeout', 1500)) if ok_t else False
+    ok_c = chk.coq_build(spec['coq_targets'], jobs=spec.get('jobs', 8), timeout=spec.get('coq_timeout', 3600)) if ok_t else False
     # 3. audit + Print Assumptions
     if ok_c:
         problems = chk.audit_and_assumptions(spec['prop_files'], spec['closure_dirs'])
@@ -35,14 +35,14 @@ def standard_check(chk, spec):
             continue
         built.append((hs, exe))
         args = list(hs['args'][tier]) + ['-cases', cdir]
-        summ, out = chk.run_harness(exe, args, timeout=hs.get('timeout', spec.get('harness_timeout', {})).get(tier, 900))
+        summ, out = chk.run_harness(exe, args, timeout=hs.get('timeout', spec.get('harness_timeout', {})).get(tier, 1800 if tier == 'quick' else 5400))
         if summ is None:
             chk.broken.append('harness cmd/%s crashed or timed out on the current tree: %s' % (name, out.strip()[-400:]))
             continue
         chk.absorb(summ, label=name)
         chk.absorb_failures(summ)
         if ok_c and summ.get('model_cases', 0) > 0:
-            okf, mism, errs = chk.coq_eval_cases(cdir, timeout=spec.get('eval_timeout', {}).get(tier, 900))
+            okf, mism, errs = chk.coq_eval_cases(cdir, timeout=spec.get('eval_timeout', {}).get(tier, 1800 if tier == 'quick' else 5400))
             if not errs:
                 chk.cov['traces_validated_against_impl'] += summ.get('model_cases', 0) - len(mism)
             chk.cov['model_mismatches'] += len(mism)
